@@ -52,7 +52,11 @@ SameShape(LA, LB) == Len(LA) = Len(LB) /\ \A n \in 1..Len(LA) : SameKey(LA[n], L
 AnyOf(o) == o.by[CHOOSE k \in DOMAIN o.by : TRUE]
 \* the value that is meant to be random changes; the value that is meant to be kept does not
 JointChange(proto, p, A, B) ==
-  CASE proto = "session" -> AnyOf(A).sid # AnyOf(B).sid
+  \* the session identifier changes, and so does everything derived under a sub-quorum {1,2} (pairwise seed, zero share): a
+  \* sub-context must inherit the randomness of the session, whichever of the three parties' streams was replaced
+  CASE proto = "session" -> /\ AnyOf(A).sid # AnyOf(B).sid
+                            /\ \A k \in DOMAIN A.by : \A f \in DOMAIN A.by[k].sub : A.by[k].sub[f] # B.by[k].sub[f]
+                            /\ \E k \in DOMAIN A.by : DOMAIN A.by[k].sub # {}
     [] proto = "hjky" -> AnyOf(A).vv # AnyOf(B).vv
     [] proto \in {"redist", "redistAnchor", "redistNew"} -> AnyOf(A).pk = AnyOf(B).pk /\ AnyOf(A).vv # AnyOf(B).vv
     [] proto \in {"gennaro", "canetti"} -> AnyOf(A).pk # AnyOf(B).pk
